@@ -18,6 +18,7 @@ fn main() {
     let skip = arg(&args, "--skip", 0) as usize;
     let stall_ms = arg(&args, "--stall-ms", 20000);
     install_panic_recorder();
+    saito_verif_harness::trace::init_logger_from_env();
     let rt = tokio::runtime::Builder::new_current_thread()
         .enable_time()
         .build()
